@@ -280,7 +280,13 @@ func VsModel(o *Outcome, m *refmodel.State) (verdict, advisory []string) {
 	add(&verdict, "lastOperationTime", o.LastTime == m.LastTime)
 	add(&verdict, "lastOperationNumber", o.LastNum == m.LastNum)
 	add(&verdict, "versionId", o.VersionID == m.VersionID)
-	add(&advisory, "anchorOrigin", JSONEqual(o.AnchorOrigin, m.AnchorOrigin))
+	// anchor origin: fixed by the create, replaced by a recover, untouched by an update ("advances only the update
+	// commitment"); left open once deactivated ("clears everything")
+	if m.Deactivated {
+		add(&advisory, "anchorOrigin", JSONEqual(o.AnchorOrigin, m.AnchorOrigin))
+	} else {
+		add(&verdict, "anchorOrigin", JSONEqual(o.AnchorOrigin, m.AnchorOrigin))
+	}
 	add(&advisory, "canonicalReference", o.CanonicalRef == m.CanonicalRef)
 	add(&advisory, "createdTime", o.CreatedTime == m.CreatedTime)
 	add(&advisory, "updatedTime", o.UpdatedTime == m.UpdatedTime)
